@@ -5,6 +5,7 @@ COMMON = "internal/common"
 SERVER = "internal/server"
 CLIENT = "internal/client"
 UM = "internal/server/usermanager"
+CKCLIENT = "cmd/ck-client"
 
 CHECKS = {}
 HOOK_COMMITS = ["b1f260a", "4c58a0f"]
@@ -104,6 +105,7 @@ CHECKS["C13"] = {
         {"pkg": MUX, "run": "^TestVerif_C13_Stress$", "checks": {"quick": 60, "thorough": 3000}, "shards": {"thorough": 4}, "timeout": {"quick": 300}},
         {"pkg": MUX, "run": "^TestVerif_C13_OpenIDs$", "checks": {"quick": 150, "thorough": 5000}, "timeout": {"quick": 300}},
         {"pkg": MUX, "run": "^TestVerif_C13_Stress$", "checks": {"thorough": 300}, "race": True, "tiers": ["thorough"], "env": {"VERIF_RACE": "1"}},
+        {"pkg": CKCLIENT, "run": "^TestVerif_C13_Program$", "checks": {"quick": 12, "thorough": 400}, "shards": {"thorough": 4}, "timeout": {"quick": 600}},
     ],
 }
 
